@@ -22,7 +22,9 @@ META = dict(
          "Close for scripts <=3, every manual/hash/round-robin partitioner configuration over 1..3 configured partitions and two "
          "topics, Return.Successes off, concurrent senders (i-th received message takes the i-th expectation), and for the consumer "
          "mock every transition of its state graph to depth 6 (two partitions + an unexpected one, yields of messages/errors, "
-         "drain expectations, every close order, high-water marks) plus all paths to depth 3. Each behaviour is executed on the "
+         "drain expectations, every close order, high-water marks) plus all paths to depth 3, two topics x two partitions with "
+         "the complete Consumer.HighWaterMarks() map compared after every step, SetTopicMetadata/Topics/Partitions sequences, and "
+         "messages whose partitioning fails (SendMessage, SendMessages, async input: the message still uses up its expectation). Each behaviour is executed on the "
          "real mocks with a recording ErrorReporter; TLC checks per message: outcome of the i-th expectation, exactly one outcome, "
          "increasing offsets, partition choice, and at every step of the scripted run the exact number of ErrorReporter calls "
          "the situation calls for (with their structured arguments).",
@@ -35,16 +37,18 @@ META = dict(
 )
 
 QUICK = dict(
-    prod=[("Mocks.fifo.cfg", "fifo"), ("Mocks.inter.cfg", "interleaved"), ("Mocks.part.cfg", "partitioner"), ("Mocks.topics.cfg", "topic_config"), ("Mocks.rets.cfg", "return_successes_off")],
-    cons=[("MocksCons.edges.cfg", "consumer_edges", 1), ("MocksCons.paths.cfg", "consumer_paths", 4)],
+    prod=[("Mocks.fifo.cfg", "fifo"), ("Mocks.inter.cfg", "interleaved"), ("Mocks.part.cfg", "partitioner"), ("Mocks.topics.cfg", "topic_config"), ("Mocks.perr.cfg", "partitioner_error"), ("Mocks.rets.cfg", "return_successes_off")],
+    cons=[("MocksCons.edges.cfg", "consumer_edges", 1), ("MocksCons.paths.cfg", "consumer_paths", 4),
+          ("MocksCons.topics.cfg", "consumer_topics", 1), ("MocksCons.meta.cfg", "consumer_metadata", 2)],
 )
 THOROUGH = dict(
-    prod=[("Mocks.fifobig.cfg", "fifo"), ("Mocks.interbig.cfg", "interleaved"), ("Mocks.partbig.cfg", "partitioner"), ("Mocks.topicsbig.cfg", "topic_config"), ("Mocks.rets.cfg", "return_successes_off")],
-    cons=[("MocksCons.edgesbig.cfg", "consumer_edges", 1), ("MocksCons.pathsbig.cfg", "consumer_paths", 4)],
+    prod=[("Mocks.fifobig.cfg", "fifo"), ("Mocks.interbig.cfg", "interleaved"), ("Mocks.partbig.cfg", "partitioner"), ("Mocks.topicsbig.cfg", "topic_config"), ("Mocks.perr.cfg", "partitioner_error"), ("Mocks.rets.cfg", "return_successes_off")],
+    cons=[("MocksCons.edgesbig.cfg", "consumer_edges", 1), ("MocksCons.pathsbig.cfg", "consumer_paths", 4),
+          ("MocksCons.topicsbig.cfg", "consumer_topics", 1), ("MocksCons.metabig.cfg", "consumer_metadata", 2)],
 )
 
 CLAUSES = {"fifo_outcome", "exactly_one_outcome", "unexpected_input_outcome", "offsets_increasing", "partition_choice",
-           "sync_return_partition", "checker_called", "deviation_not_reported", "unexpected_report", "report_arguments", "consume_result",
+           "sync_return_partition", "checker_called", "deviation_not_reported", "unexpected_report", "report_arguments", "consume_result", "metadata_result",
            "yield_order", "consecutive_offsets", "message_partition", "error_order", "high_water_mark", "no_hang_or_panic"}
 
 
@@ -289,7 +293,8 @@ def run(ctx):
     }
     return vlib.finish(ctx, "model_checking", cov, viols,
                        ["the mocks are used inside their documented domain: nothing is sent after Close, YieldMessage is not called "
-                        "on a closed partition consumer, a partition is re-registered only with the same offset, partitioners do not fail",
+                        "on a closed partition consumer, a partition is re-registered only with the same offset",
+                        "a failing partitioner is modelled as the unchanged mocks handle it: the message uses up its expectation, gets the partitioner's error as its one outcome and is reported once",
                         "ErrorReporter calls are attributed to the step of the scripted run during which the mock made them (async mock: until it "
                         "released its mutex for that message); their number per step must be the number of deviations of that step, their "
                         "argument values (topic/partition/offsets/counts/checker error) are compared as a bag when the count of values is the "
